@@ -341,44 +341,60 @@ def ecdsa_rules(ctx):
                 node=ph.node if ph else fi.node, function=ctx.fq(ph) if ph else fq,
                 expected="eddsa.new(key, 'rfc8032').sign(SHA512.new(input_data))", found=repr(po[0].value)[:200] if po else "missing")
         sg = impl.methods.get("sign")
-        so = [o for o in ev.outcomes(sg) if o.kind == "return"]
-        ok = bool(so) and all(isinstance(o.value, App) and o.value.op == "call" and len(o.value.args) >= 2
-                              and o.value.args[1] == P("data") for o in so)
-        R.check("C04-D3b EdDSA and dispatch", ok, "sign() returns sign_method(data, key) unmodified", mod=sg.module, node=sg.node,
-                function=ctx.fq(sg), expected="signature = sign_method(data, private_key); return signature",
-                found=f"{[repr(o.value)[:120] for o in so]}")
-        gm = impl.methods.get("_get_sign_method")
-        go = ev.outcomes(gm)
-        table = {}
-        for x in go:
-            if x.kind == "return" and isinstance(x.value, App) and x.value.op == "bound":
-                table[x.value.args[0].obj.name] = [repr(c) for c in x.conds]
-        want = {"_create_cose_es_signature", "_create_cose_ed_prehashed_signature", "_create_cose_ed_signature"}
-        # complete decision table: the guards touch the key only through isinstance tests and the algorithm only through comparisons
-        isi = {s_ for x in go for c in x.conds for s_ in subterms(c) if isinstance(s_, App) and s_.op == "isinstance"}
-
-        def chosen(kind, alg):
-            env = {P("algorithm"): alg}
-            for s_ in isi:
-                env[s_] = kind in repr(s_.args[1])
+        tbl = generic.kms_sign_table(ctx, impl)
+        import contextlib
+        with (R.lenient("decided on the decision table of sign(): the value returned is the routine's result for the unmodified data (C04-D3b)")
+              if tbl is not None else contextlib.nullcontext()):
+            so = [o for o in ev.outcomes(sg) if o.kind == "return"]
+            ok = bool(so) and all(isinstance(o.value, App) and o.value.op == "call" and len(o.value.args) >= 2
+                                  and o.value.args[1] == P("data") for o in so)
+            R.check("C04-D3b EdDSA and dispatch", ok, "sign() returns sign_method(data, key) unmodified", mod=sg.module, node=sg.node,
+                    function=ctx.fq(sg), expected="signature = sign_method(data, private_key); return signature",
+                    found=f"{[repr(o.value)[:120] for o in so]}")
+        # dispatch, decided on the decision table of sign() itself (private helpers followed): which routine signs what for every
+        # kind of key and every algorithm it is compatible with - wherever the selection is written
+        if tbl is not None:
+            want_tbl = generic.kms_sign_table_expected()
+            dtab = {k: tbl[k] for k in want_tbl if want_tbl[k] != "raise" and tbl[k] != want_tbl[k]}
+            R.check("C04-D3b EdDSA and dispatch", not dtab, "dispatch: EC key -> ECDSA; Ed key + hash-eddsa -> prehashed; Ed key + eddsa -> pure; each over the unmodified data",
+                    mod=sg.module, node=sg.node, function=ctx.fq(sg), expected="three-way dispatch on key type and algorithm", found=f"{dtab}"[:300])
+        if tbl is None or impl.methods.get("_get_sign_method") is not None:
+            import contextlib
+            with (R.lenient("decided on the decision table of sign() (C04-D3b)") if tbl is not None else contextlib.nullcontext()):
+                if impl.methods.get("_get_sign_method") is None:
+                    raise AnalysisError(f"{ctx.fq(sg)}: neither evaluable as a decision table nor dispatched by _get_sign_method")
+            gm = impl.methods.get("_get_sign_method")
+            go = ev.outcomes(gm)
+            table = {}
             for x in go:
-                try:
-                    if all(bool(teval(c, env)) for c in x.conds):
-                        if x.kind == "return" and isinstance(x.value, App) and x.value.op == "bound":
-                            return x.value.args[0].obj.name
-                        return x.kind
-                except Unknown:
-                    return "unknown"
-            return "none"
-        got_t = {(k, a): chosen(k, a) for k in ("EllipticCurvePrivateKey", "Ed25519PrivateKey", "Ed448PrivateKey") for a in ("es-256", "eddsa", "hash-eddsa")}
-        want_t = {}
-        for a in ("es-256", "eddsa", "hash-eddsa"):
-            want_t[("EllipticCurvePrivateKey", a)] = "_create_cose_es_signature"
-            for k in ("Ed25519PrivateKey", "Ed448PrivateKey"):
-                want_t[(k, a)] = "_create_cose_ed_prehashed_signature" if a == "hash-eddsa" else "_create_cose_ed_signature"
-        if "unknown" in got_t.values():
-            raise AnalysisError(f"{ctx.fq(gm)}: dispatch guards not evaluable")
-        diff = {k: (got_t[k], want_t[k]) for k in want_t if got_t[k] != want_t[k]}
-        R.check("C04-D3b EdDSA and dispatch", set(table) == want and not diff,
-                "dispatch: EC key -> ECDSA; Ed key + hash-eddsa -> prehashed; Ed key otherwise -> pure", mod=gm.module, node=gm.node,
-                function=ctx.fq(gm), expected="three-way dispatch on key type and algorithm", found=f"{diff or table}"[:300])
+                if x.kind == "return" and isinstance(x.value, App) and x.value.op == "bound":
+                    table[x.value.args[0].obj.name] = [repr(c) for c in x.conds]
+            want = {"_create_cose_es_signature", "_create_cose_ed_prehashed_signature", "_create_cose_ed_signature"}
+            # complete decision table: the guards touch the key only through isinstance tests and the algorithm only through comparisons
+            isi = {s_ for x in go for c in x.conds for s_ in subterms(c) if isinstance(s_, App) and s_.op == "isinstance"}
+
+            def chosen(kind, alg):
+                env = {P("algorithm"): alg}
+                for s_ in isi:
+                    env[s_] = kind in repr(s_.args[1])
+                for x in go:
+                    try:
+                        if all(bool(teval(c, env)) for c in x.conds):
+                            if x.kind == "return" and isinstance(x.value, App) and x.value.op == "bound":
+                                return x.value.args[0].obj.name
+                            return x.kind
+                    except Unknown:
+                        return "unknown"
+                return "none"
+            got_t = {(k, a): chosen(k, a) for k in ("EllipticCurvePrivateKey", "Ed25519PrivateKey", "Ed448PrivateKey") for a in ("es-256", "eddsa", "hash-eddsa")}
+            want_t = {}
+            for a in ("es-256", "eddsa", "hash-eddsa"):
+                want_t[("EllipticCurvePrivateKey", a)] = "_create_cose_es_signature"
+                for k in ("Ed25519PrivateKey", "Ed448PrivateKey"):
+                    want_t[(k, a)] = "_create_cose_ed_prehashed_signature" if a == "hash-eddsa" else "_create_cose_ed_signature"
+            if "unknown" in got_t.values():
+                raise AnalysisError(f"{ctx.fq(gm)}: dispatch guards not evaluable")
+            diff = {k: (got_t[k], want_t[k]) for k in want_t if got_t[k] != want_t[k]}
+            R.check("C04-D3b EdDSA and dispatch", set(table) == want and not diff,
+                    "dispatch: EC key -> ECDSA; Ed key + hash-eddsa -> prehashed; Ed key otherwise -> pure", mod=gm.module, node=gm.node,
+                    function=ctx.fq(gm), expected="three-way dispatch on key type and algorithm", found=f"{diff or table}"[:300])
